@@ -32,9 +32,9 @@ Proof.
   assert (L : List.length (ep_signers p) <> 0%nat <-> ep_signers p <> []).
   { destruct (ep_signers p); cbn; split; congruence. }
   rewrite L.
-  assert (F : (forall x, In x (ep_signers p) -> negb (x =? BAD_ADDR) = true) <->
-              (forall s, In s (ep_signers p) -> s <> BAD_ADDR)).
-  { split; intros H x I; specialize (H x I); lia. }
+  assert (F : (forall x, In x (ep_signers p) -> addr_parses x = true) <->
+              (forall s, In s (ep_signers p) -> s <> BAD_ADDR /\ s <> EMPTY_ADDR)).
+  { unfold addr_parses. split; intros H x I; specialize (H x I); lia. }
   rewrite F. intuition lia.
 Qed.
 
